@@ -39,6 +39,7 @@ def run(repo, report, tier):
                 "mates from files of different lengths are silently paired up wrongly")
     report.guard("C12.R1", "process run() methods", r1_total, repo, report)
     report.guard("C12.R2", "sentinels", r2_sentinels, repo, report)
+    report.guard("C12.R2", "child processes are daemons", r2_daemons, repo, report)
     report.guard("C12.R3", "main", r3_exit, repo, report)
     report.guard("C12.R3", "logging configuration", r3_logging, repo, report)
     report.guard("C12.R3", "quality characters are validated", r3_quality_validation, repo, report)
@@ -442,3 +443,37 @@ def r3_quality_validation(repo, report):
                   expected="expected_errors(read.qualities, ...) is evaluated on every path except for the empty read",
                   why=(f"on the path {bad[0]} the filter decides without decoding the qualities: an invalid quality character in such a read goes unnoticed and the run exits 0" if bad else ""))
     report.floor("C12.R3", "error filters", n, 2)
+
+
+def r2_daemons(repo, report):
+    """When the main process fails (error received, or an error of its own) it raises and the interpreter exits.  A child
+    that is not a daemon is joined at exit - a reader blocked on a full pipe then keeps the program alive forever.
+    Every process the parallel runner starts must therefore be a daemon: flag set on the object before start(), or passed
+    to the Process constructor by the class itself."""
+    bad = []
+    n = 0
+    for cname in ("ReaderProcess", "WorkerProcess"):
+        cls = repo.cls(cname)
+        init = cls.methods.get("__init__")
+        by_ctor = init is not None and any(isinstance(x, ast.Call) and src(x.func) == "super().__init__" and any(k.arg == "daemon" and isinstance(k.value, ast.Constant) and k.value.value is True for k in x.keywords) for x in ast.walk(init))
+        by_attr = init is not None and any(isinstance(x, ast.Assign) and chain(x.targets[0]) == "self.daemon" and isinstance(x.value, ast.Constant) and x.value.value is True for x in ast.walk(init))
+        # or: the runner sets .daemon = True on every instance it creates, before start()
+        set_by_runner = True
+        created = 0
+        for rc in [c_ for c_ in repo.classes.values() if c_.name.endswith("Runner")]:
+            for m_ in rc.methods.values():
+                for x in ast.walk(m_):
+                    if isinstance(x, ast.Assign) and isinstance(x.value, ast.Call) and chain(x.value.func) == cname:
+                        created += 1
+                        tgt = chain(x.targets[0])
+                        flagged = [y for y in ast.walk(m_) if isinstance(y, ast.Assign) and chain(y.targets[0]) == f"{tgt}.daemon" and isinstance(y.value, ast.Constant) and y.value.value is True]
+                        started = [y for y in ast.walk(m_) if isinstance(y, ast.Call) and chain(y.func) == f"{tgt}.start"]
+                        if not flagged or (started and flagged[0].lineno > started[0].lineno):
+                            set_by_runner = False
+        n += 1
+        ok = by_ctor or by_attr or (created > 0 and set_by_runner)
+        if not ok:
+            bad.append(cname)
+    report.ob("C12.R2", "every child process of the parallel runner is a daemon", not bad and n == 2, facts={"not_daemon": bad}, loc="src/cutadapt/runners.py",
+              expected="daemon = True for ReaderProcess and WorkerProcess (set before start(), or in the class's own Process.__init__ call)",
+              why=(f"{bad[0]} is started without the daemon flag: when the main process ends with an error while that child is still blocked, the interpreter waits for it at exit and the program hangs after printing the error" if bad else ""))
